@@ -555,6 +555,9 @@ class Model(Object):
             associated_groups = self.get_associated_groups(x)
             for group in associated_groups:
                 group.remove_members(x)
+                context = get_context(self)
+                if context:
+                    context(partial(group.add_members, [x]))
 
             if not destructive:
                 for the_reaction in list(x._reaction):  # noqa W0212
@@ -843,6 +846,8 @@ class Model(Object):
                 associated_groups = self.get_associated_groups(reaction)
                 for group in associated_groups:
                     group.remove_members(reaction)
+                    if context:
+                        context(partial(group.add_members, [reaction]))
 
     def add_groups(self, group_list: Union[str, Group, List[Group]]) -> None:
         """Add groups to the model.
@@ -1418,7 +1423,15 @@ class Model(Object):
     def __exit__(self, type, value, traceback) -> None:
         """Pop the top context manager and trigger the undo functions."""
         context = self._contexts.pop()
-        context.reset()
+        # Run the undo actions with the context stack hidden. Many of them are
+        # themselves context-aware; with an outer context still active (nested
+        # `with model:` blocks) they would record new undo actions on it, which
+        # the outer exit would then apply a second time.
+        outer_contexts, self._contexts = self._contexts, []
+        try:
+            context.reset()
+        finally:
+            self._contexts = outer_contexts
 
     def merge(
         self,
